@@ -480,6 +480,86 @@ def frame_split(data):
     return pid, data[q:]
 
 
+_REACTORS = {}
+_IDS_BY_VERSION = {}
+
+
+class _Ready(object):
+    """stands in for the `select` module inside connection.py while one
+    frame held in memory is handed to PacketReactor.read_packet"""
+    error = OSError
+
+    @staticmethod
+    def select(r, w, x, timeout=None):
+        return list(r), [], []
+
+
+def delivered_leg(ctx, comp, case, cls, ver, frame):
+    """The packet as a listener receives it: the frame is decoded by the
+    real reactor of its state (PacketReactor.read_packet).  The decoder
+    chosen must be the class whose id it is, and the object delivered
+    follows its context like any other packet: given to a connection that
+    speaks another version (Connection.write_packet assigns its own
+    context), it carries the id registered for *that* version."""
+    import io
+    from minecraft.networking import connection as C
+    state = case.get('state')
+    rc = {'handshake': C.PacketReactor, 'status': C.StatusReactor,
+          'login': C.LoginReactor, 'play': C.PlayingReactor}.get(state)
+    if rc is None:
+        return
+    key = (state, ver)
+    if key not in _REACTORS:
+        if len(_REACTORS) > 64:
+            _REACTORS.clear()
+        conn = C.Connection('localhost', 25565, username='u',
+                            allowed_versions={ver})
+        _REACTORS[key] = (conn, rc(conn))
+    conn, reactor = _REACTORS[key]
+    saved = C.select
+    C.select = _Ready
+    try:
+        d = reactor.read_packet(io.BytesIO(frame), timeout=0)
+    except Exception as e:
+        ctx.fail(comp, 'F7-delivery-raises', case, exc=e)
+        return
+    finally:
+        C.select = saved
+    if type(d) is not cls:
+        ctx.fail(comp, 'F7-delivered-class', case, type(d).__name__,
+                 cls.__name__)
+        return
+    ik = (cls.__name__, state)
+    if ik not in _IDS_BY_VERSION:
+        m = {}
+        for v in supported():
+            if any(k is cls for k in table('clientbound', state, v)):
+                m[v] = cls.get_id(P4.ctx_for(v))
+        _IDS_BY_VERSION[ik] = m
+    ids = _IDS_BY_VERSION[ik]
+    here = ids.get(ver)
+    others = [v for v in ids if ids[v] != here]
+    if not others:
+        ctx.label('delivered_class_has_one_id_everywhere')
+        return
+    # the nearest versions before and after with another id
+    r0 = P4.rank(ver)
+    others.sort(key=lambda v: (abs(P4.rank(v) - r0), v))
+    for vb in others[:2]:
+        from minecraft.networking.connection import ConnectionContext
+        d.context = ConnectionContext(protocol_version=vb)
+        try:
+            got = d.id
+        except Exception as e:
+            ctx.fail(comp, 'F7-retargeted-id-raises', dict(case, to=vb),
+                     exc=e)
+            continue
+        if got != ids[vb]:
+            ctx.fail(comp, 'F7-retargeted-id', dict(case, to=vb), got,
+                     ids[vb])
+    ctx.label('delivered_then_retargeted')
+
+
 def check_packet(ctx, comp, case, cls, ver, p, expect, specs=None,
                  expect_id=None):
     """Common F1-F4 for a constructed packet p; expect: {attr: value} with
@@ -514,6 +594,9 @@ def check_packet(ctx, comp, case, cls, ver, p, expect, specs=None,
                      s2.value.hex()[:200], s.value.hex()[:200])
     except Exception as e:
         ctx.fail(comp, 'F1-second-write-raises', case, exc=e)
+    if case.get('direction') == 'clientbound' and expect_id is None:
+        delivered_leg(ctx, comp, case, cls, ver, s.value)
+        c = P4.ctx_for(ver)
     q = cls()
     q.context = c
     from minecraft.networking.packets import PacketBuffer
